@@ -747,7 +747,9 @@ class Env:
 
     def binop(self, it, op, a, b, inplace=False):
         conc = (int, float, str, bytes, tuple, list)
-        if isinstance(a, conc) and isinstance(b, conc) and not isinstance(a, (tuple, list)):
+        scal = (int, float, str, bytes, type(None))
+        b_conc = isinstance(b, scal) or (isinstance(b, (tuple, list)) and all(isinstance(x, scal) for x in b))
+        if isinstance(a, conc) and b_conc and not isinstance(a, (tuple, list)):
             try:
                 return self.conc_binop(op, a, b)
             except TypeError:
